@@ -95,19 +95,27 @@ def ymd (d : Date) : Timex := { year := some (.int d.y), month := some (.int d.m
 
 /-! ## `TimexHelpers` (time ranges) -/
 
-/-- `TimexHelpers.add_time(start, duration)` — reads the misspelt `duration.minue` (AttributeError whenever
-`minutes` is set) and `duration.second` (the *time-of-day* property, `None` after `clone_duration`: TypeError
-whenever `seconds` is set). -/
+/-- `int((hours or 0) * 3600 + (minutes or 0) * 60 + (seconds or 0))`: exact sum, truncated -/
+def durSeconds (d : Timex) : Int :=
+  let term (x : Option Num) (k : Int) : Int × Nat := match x with
+    | none => (0, 0)
+    | some v => let (n, sc) := v.scaled; (n * k, sc)
+  let a := term d.hours 3600
+  let b := term d.minutes 60
+  let c := term d.seconds 1
+  let sc := max a.2 (max b.2 c.2)
+  let num : Int := a.1 * (pow10 (sc - a.2) : Nat) + b.1 * (pow10 (sc - b.2) : Nat) + c.1 * (pow10 (sc - c.2) : Nat)
+  Int.tdiv num (pow10 sc : Nat)
+
+/-- `TimexHelpers.add_time(start, duration)` (since fix 6f9f17986: adds in seconds and normalises; before it read
+the misspelt `duration.minue` and the time-of-day property `duration.second`). -/
 def addTime (start duration : Timex) : R Timex := do
-  let h ← optAdd start.hour (duration.hours.getD (.int 0))
-  if duration.minutes.isSome then throw .attributeError
-  let m ← optAdd start.minute (.int 0)
-  let s ← match duration.seconds with
-    | some _ => match duration.second with
-      | some x => optAdd start.second x
-      | none => throw .typeError
-    | none => optAdd start.second (.int 0)
-  return ({} : Timex).initTime (some h) (some m) (some s)
+  let h ← needInt start.hour
+  let m ← needInt start.minute
+  let s ← needInt start.second
+  let total : Int := h * 3600 + m * 60 + s + durSeconds duration
+  return ({} : Timex).initTime (some (.int (total.fdiv 3600))) (some (.int ((total.fdiv 60).fmod 60)))
+    (some (.int (total.fmod 60)))
 
 def sDT : Str := [68, 84]
 def sMO : Str := [77, 79]
@@ -214,15 +222,22 @@ def firstPair (ov : α → α → Bool) : List α → Nat → Option (Nat × Nat
     | some (j, r2) => some (i, j, r1, r2)
     | none => firstPair ov rest (i + 1)
 
-/-- `del ranges[i:1]`: removes `ranges[0]` when `i = 0`, nothing otherwise -/
+/-- `del ranges[i:1]` of the code before fix d3c7bf705: removes `ranges[0]` when `i = 0`, nothing otherwise -/
 def delTo1 (i : Nat) (rs : List α) : List α := if i = 0 then rs.drop 1 else rs
 
-/-- `inner_collapse`: `none` = returned `False` (nothing changed) -/
-def innerCollapse (ov : α → α → Bool) (inter : α → α → α) (rs : List α) : Option (List α) :=
+/-- `inner_collapse` before the fix (kept for the regression theorem `inner_collapse_before_fix_stuck`) -/
+def innerCollapseBeforeFix (ov : α → α → Bool) (inter : α → α → α) (rs : List α) : Option (List α) :=
   if rs.length = 1 then none else
   match firstPair ov rs 0 with
   | none => none
   | some (i, j, r1, r2) => some (delTo1 (j - 1) (delTo1 i rs) ++ [inter r1 r2])
+
+/-- `inner_collapse`: `none` = returned `False` (nothing changed); `del ranges[i]; del ranges[j-1]` -/
+def innerCollapse (ov : α → α → Bool) (inter : α → α → α) (rs : List α) : Option (List α) :=
+  if rs.length = 1 then none else
+  match firstPair ov rs 0 with
+  | none => none
+  | some (i, j, r1, r2) => some ((rs.eraseIdx i).eraseIdx (j - 1) ++ [inter r1 r2])
 
 /-- `while self.inner_collapse(ranges): True` — `none` = out of fuel -/
 def collapseLoop (ov : α → α → Bool) (inter : α → α → α) : Nat → List α → Option (List α)
@@ -262,13 +277,28 @@ def yearDateRange (y : Num) : R (Str × Str) := do
   return (dateValue { year := some y, month := some (.int 1), dayOfMonth := some (.int 1) },
           dateValue { year := some y1, month := some (.int 1), dayOfMonth := some (.int 1) })
 
-/-- `month_date_range(year, month)`: the end is `month + 1` of the **same** year (13 for December) -/
-def monthDateRange (y : Option Num) (m : Option Num) : R (Str × Str) := do
+/-- `month_date_range(year, month)` before fix d71f0ec63: the end is `month + 1` of the **same** year -/
+def monthDateRangeBeforeFix (y : Option Num) (m : Option Num) : R (Str × Str) := do
   let m1 ← optAdd m (.int 1)
   return (dateValue { year := y, month := m, dayOfMonth := some (.int 1) },
           dateValue { year := y, month := some m1, dayOfMonth := some (.int 1) })
 
-/-- `week_date_range(year, week_of_year)`: the end's **day** is pasted onto the start's year and month -/
+/-- `month_date_range(year, month)`: `(year + 1, 1) if month == 12 else (year, month + 1)` -/
+def monthDateRange (y : Option Num) (m : Option Num) : R (Str × Str) := do
+  let is12 := match m with
+    | some v => v.eqInt 12
+    | none => false
+  let (ey, em) ← if is12 then do
+      let y1 ← optAdd y (.int 1)
+      pure (some y1, some (Num.int 1))
+    else do
+      let m1 ← optAdd m (.int 1)
+      pure (y, some m1)
+  return (dateValue { year := y, month := m, dayOfMonth := some (.int 1) },
+          dateValue { year := ey, month := em, dayOfMonth := some (.int 1) })
+
+/-- `week_date_range(year, week_of_year)`: Monday of the week and the Monday after it (before fix 878b0c295 the
+end's **day** was pasted onto the start's year and month) -/
 def weekDateRange (cfg : Cfg) (y w : Option Num) : R (Str × Str) := do
   let d ← mkDate y (some (.int 1)) (some (.int 1))
   let wd : Int := d.weekday
@@ -281,7 +311,7 @@ def weekDateRange (cfg : Cfg) (y w : Option Num) : R (Str × Str) := do
   let start ← dateOfLastDay cfg.monday d
   let d7 ← addDays d 7
   let e ← dateOfLastDay cfg.monday d7
-  return (dateValue (ymd start), dateValue (ymd ⟨start.y, start.m, e.d⟩))
+  return (dateValue (ymd start), dateValue (ymd e))
 
 def weekdayArg (cfg : Cfg) (t : Timex) : R Int :=
   match t.dayOfWeek with
@@ -448,7 +478,11 @@ def resolveDurations (cfg : Cfg) (cands : List Str) (constraints : List Timex) :
     else return acc ++ [c]) []
 
 def resolveDefiniteAgainstConstraint (t : Timex) (c : DateRange) : R (List Str) := do
-  let d ← dateFromTimex t
+  -- fix 87c68cc2f: `except ValueError: return ['']` (XXXX-02-29 in a non-leap year)
+  let d ← match dateFromTimex t with
+    | .ok d => pure d
+    | .error .valueError => return [[]]
+    | .error e => throw e
   if c.s ≤ d.ord ∧ d.ord < c.e then
     let v ← formatT t
     return [v]
@@ -465,14 +499,13 @@ def resolveDateAgainstConstraint (t : Timex) (c : DateRange) : R (List Str) := d
   if andChainNotNone [t.month, t.dayOfMonth] then
     let ys := (Date.ofOrd c.s).y
     let ye := (Date.ofOrd c.e).y
-    -- `while year-1 != constraint.end.year`: years ys … ye; when ys > ye + 1 the loop only ends with the
-    -- ValueError of `date(year > 9999, …)`
+    -- `while year-1 != constraint.end.year`: years ys … ye; when ys > ye + 1 (a reversed range, not produced by
+    -- the constructors of constraints) the loop never ends: the ValueError of `date(year > 9999, …)` is caught now
     if ys ≤ ye + 1 then
       let r ← yearsLoop t c (ye + 1 - ys) ys
       return r.filter (· ≠ [])
     else
-      let _ ← yearsLoop t c (10000 - ys) ys
-      throw .valueError
+      throw .hang
   match t.dayOfWeek with
   | some w =>
     let day ← match w with
@@ -483,7 +516,8 @@ def resolveDateAgainstConstraint (t : Timex) (c : DateRange) : R (List Str) := d
       let d := Date.ofOrd o
       formatT { t with dayOfWeek := none, year := some (.int d.y), month := some (.int d.m),
                        dayOfMonth := some (.int d.d) }
-  | none => return [[]]
+  -- fix 5cd31f22f: no candidate (before: `['']`, which came back as an empty TIMEX)
+  | none => return []
 
 def resolveByDateRangeConstraints (cfg : Cfg) (fuel : Nat) (cands : List Str) (constraints : List Timex) :
     R (List Str) := do
